@@ -21,12 +21,26 @@
          may hold DEAD entries: nodes dropped by a merging load, membership [65535]); Inv06 implies Inv06D.
        - C06_rename_skips_dead: live referrers standing BEHIND a dead entry are rewritten.
        - C06_rename_skips_dead_witness: such a world, produced by the loader model (three loads), with the stale root
-         and a dead entry in front of a live one; replayed on the library by checks/c06.py. *)
+         and a dead entry in front of a live one; replayed on the library by checks/c06.py.
+       - C06_treefactsL_after_load: the structural part of Inv06D (TreeFactsL) holds after EVERY load outside agent-c03's
+         classes (first loads and merges).
+       - C06_after_first_load / C06_load_then_rename[_real]: AutosarModel::new(); load_buffer(..); set_item_name(..):
+         after the FIRST load into the only, still empty model of a world the path index and the referrer map are exact
+         (Inv06D), so the three clauses of the rename theorem hold.  No hypothesis about duplicate paths (a load that
+         returns Ok has passed the overlap check).  Remaining hypothesis: DocSide of the loaded world = the node-wise side
+         conditions of Inv04 (SHORT-NAME elements carry a SHORT-NAME type, their text has no '/', an identifiable element has
+         an item name, character elements hold at most one text) and SnNamed (a SHORT-NAME first child only below an
+         element of a named type): properties of the loaded DOCUMENT, not derived from the parser here.
+       STILL PENDING: Inv04 / Inv05D after a MERGING load (second and later files), loads into a world with several
+       models, moves in loaded worlds. *)
 From AV Require Import Base.Bytes Base.Outcome Hash.HashModel Spec.SpecOps Spec.SpecReal Tree.Heap Tree.Ops Tree.Script Tree.Script2
   Tree.Sort Tree.Copy Tree.Load Tree.Compat Tree.Serialize Tree.Inv Tree.Index Tree.Refs Tree.RefsAll Tree.CheckFn
   Tree.IndexProofsNodeInv Tree.IndexProofsOp2 Tree.SortProofsNames Tree.InvProofsReal Tree.InvProofsOp2 Tree.InvProofsOp2Lift
   Tree.Follow Tree.FollowL Tree.FollowProofsRename Tree.FollowProofsAll Tree.FollowProofsL Tree.FollowProofsRenameD
   Tree.FollowProofsOp2 Tree.FollowProofsReal Tree.FollowWitnessLoad.
+From AV Require Import Tree.InvEBase Tree.InvLoad Tree.InvProofsLoadLive Tree.FollowProofsLoad Tree.FollowProofsLoadMain
+  Tree.FollowProofsLoadTop Tree.FollowProofsLoadReal.
+From AV Require Xml.Parser Xml.TablesOk Xml.LoadRecordsRegular.
 Import Tiny.
 Open Scope list_scope.
 Open Scope N_scope.
@@ -188,3 +202,79 @@ Theorem C06_rename_skips_dead_witness :
     map (ref_text tiny w) [13; 34] = [Some (BS "/p1/S"); Some (BS "/p1/S")] /\
     map (ref_text tiny w') [13; 34] = [Some (BS "/q/S"); Some (BS "/q/S")].
 Proof. exact rename_skips_dead_witness. Qed.
+
+(* ====================================================================== after a load *)
+
+(* [U] every load outside agent-c03's classes (not rejected with InvalidFileMerge, not Known_load_shared): RealInvL is kept
+   and TreeFactsL holds - first loads (stale root) and merging loads alike *)
+Theorem C06_treefactsL_after_load :
+  forall (T : tables) (tab_el tab_at tab_en : nametab) (check_fn : N -> list N -> res bool)
+         (float_parse : list N -> option N) (LATEST name_definition_ref : N)
+         (m : N) (buffer filename : list N) (strict : bool) (w : world) (r : out (N * list Parser.perror)) (w' : world),
+  TablesOk.tables_ok T = true -> RealInvL T w ->
+  Known_load_shared T tab_el tab_at tab_en check_fn float_parse LATEST name_definition_ref w (OpLoad m buffer filename strict) = false ->
+  r <> ER InvalidFileMerge ->
+  m_load_buffer T tab_el tab_at tab_en check_fn float_parse LATEST name_definition_ref m buffer filename strict w = Val (r, w') ->
+  RealInvL T w' /\ TreeFactsL w'.
+Proof. exact TreeFactsL_after_load. Qed.
+
+(* [U] AutosarModel::new() in the empty world makes a world with one model whose index maps are empty *)
+Theorem C06_fresh_model :
+  forall (T : tables) (tab_el tab_en : nametab) (check_fn : N -> list N -> res bool) (LATEST : N)
+         (root_attrs : list (N * cdata)) (m : N) (w : world),
+  (forall ty, is_ref T ty = Val true -> content_mode T ty = Val MCharacters) ->
+  new_model T root_attrs empty_world = Val (OK m, w) ->
+  m = 0 /\ RealInvL T w /\ exists x, w_models w = [x] /\ m_files x = [] /\ m_idents x = [] /\ m_origins x = [].
+Proof. exact fresh_model. Qed.
+
+(* [U] the first load into such a world: Inv06D afterwards.  DocSide: Tree/FollowProofsLoadMain.v *)
+Theorem C06_after_first_load :
+  forall (T : tables) (tab_el tab_at tab_en : nametab) (check_fn : N -> list N -> res bool)
+         (float_parse : list N -> option N) (LATEST name_definition_ref : N)
+         (buffer filename : list N) (strict : bool) (w : world) (x : model) (f : N) (ws : list Parser.perror) (w' : world),
+  TablesOk.tables_ok T = true -> LoadRecordsRegular.sn_charsb T = true -> LoadRecordsRegular.ref_charsb T = true ->
+  (forall ty, is_ref T ty = Val true -> content_mode T ty = Val MCharacters) ->
+  RealInvL T w -> w_models w = [x] -> m_files x = [] -> m_idents x = [] -> m_origins x = [] ->
+  m_load_buffer T tab_el tab_at tab_en check_fn float_parse LATEST name_definition_ref 0 buffer filename strict w = Val (OK (f, ws), w') ->
+  (ShortTyped T check_fn w' /\ SlashFree T w' /\ AllNamed T w' /\ CharsLeaf T w' /\
+   (forall i n, w_nodes w' i = Some n -> short_child T w' n <> None -> Index.named T (n_type n) = true)) ->
+  TreeFactsL w' /\ Inv04 T check_fn w' /\ Inv05D T w'.
+Proof. exact after_first_load. Qed.
+
+(* [U] load, then rename: the three clauses *)
+Theorem C06_load_then_rename :
+  forall (T : tables) (tab_el tab_at tab_en : nametab) (check_fn : N -> list N -> res bool)
+         (float_parse : list N -> option N) (LATEST name_definition_ref : N)
+         (buffer filename : list N) (strict : bool) (w : world) (x : model) (f : N) (ws : list Parser.perror) (w1 : world)
+         (h : id) (nn : list N) (w2 : world),
+  TablesOk.tables_ok T = true -> LoadRecordsRegular.sn_charsb T = true -> LoadRecordsRegular.ref_charsb T = true ->
+  (forall ty, is_ref T ty = Val true -> content_mode T ty = Val MCharacters) ->
+  RealInvL T w -> w_models w = [x] -> m_files x = [] -> m_idents x = [] -> m_origins x = [] ->
+  m_load_buffer T tab_el tab_at tab_en check_fn float_parse LATEST name_definition_ref 0 buffer filename strict w = Val (OK (f, ws), w1) ->
+  DocSide T check_fn w1 ->
+  live_ref T w1 0 h ->
+  e_set_item_name T check_fn LATEST h nn w1 = Val (OK tt, w2) ->
+  (forall r y, live_ref T w1 0 r -> designates T w1 0 r y -> below T w1 h y -> designates T w2 0 r y) /\
+  (forall r p, ~ dead w1 r -> ref_text T w1 r = Some p -> resolves T w1 0 r ->
+               ~ (exists y, designates T w1 0 r y /\ below T w1 h y) -> ref_text T w2 r = Some p) /\
+  (forall r p old, ~ dead w1 r -> SpecPath T w1 0 h old -> ref_text T w1 r = Some p ->
+                   ~ (live_ref T w1 0 r /\ old_form old p) -> ref_text T w2 r = Some p).
+Proof. exact load_then_rename. Qed.
+
+(* [F tables] on the generated tables the four table hypotheses are theorems *)
+Theorem C06_load_then_rename_real :
+  forall (tab_el tab_at tab_en : nametab) (check_fn : N -> list N -> res bool)
+         (float_parse : list N -> option N) (LATEST name_definition_ref : N)
+         (buffer filename : list N) (strict : bool) (w : world) (x : model) (f : N) (ws : list Parser.perror) (w1 : world)
+         (h : id) (nn : list N) (w2 : world),
+  RealInvL RT w -> w_models w = [x] -> m_files x = [] -> m_idents x = [] -> m_origins x = [] ->
+  m_load_buffer RT tab_el tab_at tab_en check_fn float_parse LATEST name_definition_ref 0 buffer filename strict w = Val (OK (f, ws), w1) ->
+  DocSide RT check_fn w1 ->
+  live_ref RT w1 0 h ->
+  e_set_item_name RT check_fn LATEST h nn w1 = Val (OK tt, w2) ->
+  (forall r y, live_ref RT w1 0 r -> designates RT w1 0 r y -> below RT w1 h y -> designates RT w2 0 r y) /\
+  (forall r p, ~ dead w1 r -> ref_text RT w1 r = Some p -> resolves RT w1 0 r ->
+               ~ (exists y, designates RT w1 0 r y /\ below RT w1 h y) -> ref_text RT w2 r = Some p) /\
+  (forall r p old, ~ dead w1 r -> SpecPath RT w1 0 h old -> ref_text RT w1 r = Some p ->
+                   ~ (live_ref RT w1 0 r /\ old_form old p) -> ref_text RT w2 r = Some p).
+Proof. exact load_then_rename_real. Qed.
